@@ -312,3 +312,10 @@ CLAIMS["C12"]["note"] += (" After a silent closing the last event may lag until 
 CLAIMS["C15"]["text"] += (" Emitters of one event type may disagree on Stateful (stateful then plain, plain then stateful, closed in between, opened mid-history): a type is stateful once any emitter opened with Stateful was returned and stays so while the type is in use; a later subscriber first receives the most recent earlier event whoever emitted it.")
 CLAIMS["C06"]["text"] += (" A second Swarm.Close call may race with or follow the first: whichever Close call returns first must not return before the notifications.")
 CLAIMS["C06"]["note"] += (" In cases with a second Close call or transient notifiees callbacks linger by yielding instead of sleeping and schedule points do not sleep.")
+
+CLAIMS["C04"]["text"] += (" A host layer (TestHostPair) drives BasicHost.NewStream/identify between two BasicHosts (or a host and a mute peer) over the in-memory transport with generated context end instants incl. during the identify wait of a fresh connection, lazy/eager/failed protocol negotiation and stream-scope refusals: "
+    "every stream of a failed or finished NewStream must be gone from the connection and from all rcmgr scopes while the connection is still up, and all usage zero after Host.Close. The shared TCP listener (tcpreuse.ConnMgr) is driven over real loopback sockets behind the real upgrader gate and resource manager "
+    "(1-3 demultiplexed listeners on one port, inbound connections of every classification and first-byte timing, consumers that accept none/some/all and race Close, staggered Close, gate refusals): after the last Close has returned every connection scope the gate opened is Done, the manager reads zero, every raw connection is closed as seen by its remote end and no listener goroutine is left.")
+CLAIMS["C04"]["note"] += (" The tcpreuse layer runs in real time on loopback (not in a synctest bubble): interleavings are not exactly reproducible; the verdict is taken only after Close returned, plus a 5 s bound for the remote end to observe EOF/reset; harness timeouts count as inconclusive. WebSocket and QUIC transports' own dial/accept paths are not fault-enumerated.")
+CLAIMS["C07"]["text"] += (" The request list is treated as the caller's own slice object: private slices and lists the application keeps (with spare capacity or clipped) are passed to several NewStream calls of one history; every open is judged against the list the caller intended, and the caller's backing array must be unchanged after every call.")
+CLAIMS["C03"]["text"] += (" In the concurrent property the harness' limiter may give way to other goroutines before answering a limit lookup, stretching the moment at which a scope is created on first use.")
